@@ -506,4 +506,52 @@ theorem dispatching_outs (env : Env) (d : Desc) (n : Node) (it : Item)
         rw [htag] at this
         exact this
 
+
+/-- The outputs of `forward` name the bundle `b`. -/
+theorem forward_names (env : Env) (d : Desc) (b : Bundle) (n : Node) :
+    ∀ o ∈ (forward env d b n).2, ∃ p ok, o = Output.sent p b ok := by
+  intro o ho
+  unfold forward at ho
+  simp only at ho
+  split at ho
+  · cases ho
+  · split at ho
+    · cases ho
+    · split at ho
+      · cases ho
+      · rcases forwardSend_outs env b _ o ho with ⟨p, ok, _, h⟩
+        exact ⟨p, ok, h⟩
+
+/-- The outputs of `dispatching` name the bundle the descriptor stands for. -/
+theorem dispatching_names (env : Env) (d : Desc) (n : Node) (it : Item) (hg : n.store.get d.key = some it) :
+    ∀ o ∈ (dispatching env d n).2, ∀ p b ok, o = Output.sent p b ok → b = descTag d it := by
+  intro o ho p b ok hob
+  unfold dispatching at ho
+  simp only at ho
+  have ha := dispatchingAllowed_rt env d n
+  split at ho
+  · cases ho
+  · cases hbun : d.bundle (dispatchingAllowed env d n).2 with
+    | none => simp only [hbun] at ho; cases ho
+    | some b1 =>
+      simp only [hbun] at ho
+      have hb1 : b1 = descTag d it := by
+        unfold Desc.bundle at hbun
+        unfold descTag
+        cases hd : d.bndl with
+        | some b' => simp [hd] at hbun; rw [hbun]
+        | none =>
+          simp only [hd] at hbun
+          rcases ha.item it hg with ⟨ita, ga, ba, _⟩
+          simp only [ga] at hbun
+          split at hbun
+          · cases hbun; simp [ba]
+          · cases hbun
+      split at ho
+      · cases ho
+      · rcases forward_names env _ b1 _ o ho with ⟨q, ok', hq⟩
+        rw [hob] at hq
+        cases hq
+        exact hb1
+
 end Dtn7.Node
